@@ -20,6 +20,12 @@ ALPHA_ASCII = ["a", "b", "c", "d", "e", "f", "a1", "b1", "ab", "c2"]
 KINDS = ["child", "x", "y", "z"]
 
 
+def fresh_str(s):
+    """an equal but distinct (non-interned) str object (len >= 2)"""
+    return "".join(list(s)) if isinstance(s, str) and len(s) >= 2 else s
+
+
+
 @dataclasses.dataclass(frozen=True)
 class Item:
     name: str
@@ -166,7 +172,7 @@ def build(spec, *, flavour: Flavour | None = None, typed: bool = False, name="T"
             if opts.get("nid") is not None:
                 kw["node_id"] = opts["nid"]
             if typed:
-                kw["kind"] = opts.get("kind") or "child"
+                kw["kind"] = fresh_str(opts.get("kind") or "child")
             n = parent.add(data, **kw)
             if opts.get("meta"):
                 n.update_meta(dict(opts["meta"]))
